@@ -255,9 +255,126 @@ def equality(ck, F):
                 if nm in ("eq", "ne", "lt", "le", "gt", "ge") and len(c.args) == 2:
                     a0, a1 = expr_params(po.expr(c.args[0])), expr_params(po.expr(c.args[1]))
                     got.setdefault(opv, set()).add((nm, a0 == {1}, a1 == {2}))
+        # the same table written through `left.partial_cmp(&right)` and tests on the Option<Ordering>: per operator, the set
+        # of orderings (Less / Equal / Greater / None = unordered) for which it yields true
+        via_ordering = ordering_truth_sets(po)
+        if via_ordering is not None:
+            WANT_SETS = {"EqualTo": {"Equal"}, "LessThan": {"Less"}, "LessThanOrEqualTo": {"Less", "Equal"}, "GreaterThan": {"Greater"},
+                         "GreaterThanOrEqualTo": {"Greater", "Equal"}, "NotEqualTo": {"Less", "Greater", "None"}}
+            for opv, m in want.items():
+                if got.get(opv) != {(m, True, True)} and via_ordering.get(opv) == WANT_SETS[opv]:
+                    got[opv] = {(m, True, True)}
         for opv, m in want.items():
             ck.require(got.get(opv) == {(m, True, True)}, "C02:OP:EqualityOp::%s" % opv, "operator semantics",
                        "%s -> left.%s(right)" % (opv, m), "EqualityOp::%s performs %s" % (opv, sorted(map(str, got.get(opv, [])))), po.span)
+
+
+def ordering_truth_sets(po):
+    """{operator variant: set of orderings for which evaluate_partial_ord returns true} when the function compares through
+    `partial_cmp(left, right)`; None when it does not."""
+    pcs = [c for c in po.calls() if c.callee.split("::")[-1] == "partial_cmp"]
+    if len(pcs) != 1:
+        return None
+    pc = pcs[0]
+    if expr_params(po.expr(pc.args[0])) != {1} or expr_params(po.expr(pc.args[1])) != {2}:
+        return None
+    if pc.dest["proj"]:
+        return None
+    ordl = pc.dest["local"]
+    ALL = frozenset(["Less", "Equal", "Greater", "None"])
+
+    def is_ord_place(pl, inner):
+        if pl["local"] != ordl:
+            # a reference / copy of the ordering local
+            d = po.unique_def(pl["local"])
+            return False
+        projs = [p["k"] for p in pl["proj"]]
+        return (projs == []) if not inner else (projs[:1] == ["downcast"] and len(projs) == 2)
+
+    def is_ord(e):
+        """the expression is the value partial_cmp returned (possibly borrowed)"""
+        for _ in range(6):
+            e = strip_expr(e)
+            if e[0] == "ref":
+                e = e[1]
+            elif e[0] == "place" and not e[2]:
+                e = e[1]
+            else:
+                break
+        return e == ("local", ordl) or (e[0] == "call" and len(e) > 3 and e[3] is pc)
+
+    def promoted_ordering(op):
+        e = strip_expr(po.expr(op))
+        while e[0] == "ref":
+            e = strip_expr(e[1])
+        if e[0] == "agg" and e[2] == "Some" and e[3]:
+            inner = strip_expr(e[3][0])
+            if inner[0] == "agg" and inner[2] in ("Less", "Equal", "Greater"):
+                return inner[2]
+        if e[0] == "agg" and e[2] == "None":
+            return "None"
+        return None
+
+    def explore(bb, state, seen):
+        """-> set of orderings (subset of state) for which true is returned from bb on"""
+        if not state or (bb, state) in seen:
+            return set()
+        seen = seen | {(bb, state)}
+        out = set()
+        result_const = None
+        for st in po.blocks[bb]["stmts"]:
+            if st["k"] == "assign" and st["place"]["local"] == 0 and not st["place"]["proj"] and st["rv"]["k"] == "use" and \
+                    st["rv"]["op"].get("k") == "const":
+                result_const = bool(st["rv"]["op"].get("int"))
+        t = po.term(bb)
+        if result_const is not None and t["k"] in ("goto", "return", "drop"):
+            return set(state) if result_const else set()
+        c = po.call_at(bb)
+        if c is not None and c.dest["local"] == 0 and not c.dest["proj"] and c.callee.split("::")[-1] in ("eq", "ne") and len(c.args) == 2:
+            x = promoted_ordering(c.args[1])
+            lhs = strip_expr(po.expr(c.args[0]))
+            while lhs[0] in ("ref",):
+                lhs = strip_expr(lhs[1])
+            if x is None or not is_ord(lhs):
+                return {"?"}
+            hit = {x} & set(state)
+            return hit if c.callee.split("::")[-1] == "eq" else set(state) - hit
+        if t["k"] == "switch":
+            info = po.switch_info(bb)
+            subj = info[0]
+            names = info[3]
+            if names and subj[0] == "discr":
+                pe = strip_expr(subj[1])
+                if is_ord(pe) and not (pe[0] == "place" and pe[2]) and set(names.values()) <= {"None", "Some"}:
+                    parts = {}
+                    for v, n in names.items():
+                        tg = info[1].get(v, info[2])
+                        parts.setdefault(tg, set()).update({"None"} if n == "None" else {"Less", "Equal", "Greater"})
+                    for tg, ss in parts.items():
+                        out |= explore(tg, frozenset(ss & set(state)), seen)
+                    return out
+                if pe[0] == "place" and pe[2] and is_ord(pe[1]) and set(names.values()) <= {"Less", "Equal", "Greater"}:
+                    parts = {}
+                    for v, n in names.items():
+                        tg = info[1].get(v, info[2])
+                        parts.setdefault(tg, set()).add(n)
+                    for tg, ss in parts.items():
+                        out |= explore(tg, frozenset(ss & set(state)), seen)
+                    return out
+            return {"?"}
+        for s_ in po.succs(bb):
+            out |= explore(s_, state, seen)
+        return out
+
+    res = {}
+    for bb in sorted(po.reachable()):
+        info = po.switch_info(bb)
+        if info and info[3] and "EqualTo" in info[3].values():
+            for v, n in info[3].items():
+                tg = info[1].get(v, info[2])
+                if tg is not None:
+                    res[n] = explore(tg, ALL, frozenset())
+    return res or None
 
 
 def exponent(ck, F):
